@@ -639,5 +639,6 @@ extern "C" int engineexport_finalize ()
     else
       delete global_graph_algo;
 
+    global_algo_freed = true;
     return 0;
     }
